@@ -99,7 +99,26 @@ def K(prefix, **kw):
     d.update(kw)
     return d
 
+_PT = dict(extra=["-Z", "stubbing", "-Z", "unstable-options", "--cbmc-args", "--max-field-sensitivity-array-size", "512"],
+           own_labels_only=True, jobs=12, mem_gb=16,
+           stubs=["S-zero: PageTable::zero -> whole-table assignment (the real zero() is verified in C08); native replays run the real one"],
+           trusted_base=["rustc->Kani->CBMC", "CaDiCaL", "overlay O1-O4", "hw_walk oracle (harness/src/structures/paging/mapper/verif_mapper/mod.rs, from SDM vol.3A 4.5)"],
+           assumptions=["regime R2- (DESIGN.md 3.5): virtual addresses, which path slots are links, the flags of existing parent entries, the parent_table_flags argument and the allocator failure position are CONCRETE per harness instance (boundary menu); symbolic: contents of the entry that ends the path, all neighbouring entries, stale bytes of free frames, the frame and leaf-flags arguments",
+                        "pre-states satisfy the well-formedness invariant WF (tree-shaped hierarchy of pool frames, leaf/parent entries zero or PRESENT, huge leaves size-aligned, leaf frames outside the pool)",
+                        "leaf flags are drawn from bits 0-11 and 52-63 (bit 12 = PAT of huge leaves is excluded, see known finding F3)",
+                        "MappedPageTable with a pool frame mapping only; OffsetPageTable/RecursivePageTable are not driven (their address arithmetic is decided in C20/C03)"])
+
+def PT(prop, own, **kw):
+    d = K(own, **_PT)
+    d["filters_quick"] = ["pt_", own + "_"]
+    d["filters_thorough"] = ["pt_", "ptt_", own + "_", own + "t_"]
+    d.update(kw)
+    return d
+
 PROPS = {
+    "C01": PT("C01", "c01", bounds="one mapper call from every pre-state of 80 (quick) / 400 (thorough) concrete-skeleton instances x all symbolic contents; pool of 8 table frames; histories by induction on WF over the instance family, not for all addresses"),
+    "C02": PT("C02", "c02", bounds="as C01; every allocator failure position (0..3) is its own instance"),
+    "C09": PT("C09", "c09", bounds="as C01; frame rule on 24 witness slots per instance (every written slot, neighbours, slots 0/511 of free frames)"),
     "C04": K("c04", bounds="no loop; all canonical addresses, all index tuples in 0..512^4, all u16"),
     "C05": K("c05", bounds="no loop; all canonical addresses/pages, all usize counts"),
     "C06": K("c06", bounds="no loop; all u64 addresses x all 64 power-of-two alignments (k<=47 for VirtAddr)"),
